@@ -1088,6 +1088,26 @@ def check_state_limit_writers(ctx, rep, pid):
             st = pfh.at(site[0], site[1])
             ok, w = all_paths(st, lambda S: has_cmp(S, 'ne', lambda l: is_field(l, 'current_state', 'MachineRuntime'), next_state_payload, True))
             rep.ob(pid + '.R1', fn, 'state-store-on-change-edge', ok, '')
+    # what transition reports to its caller (the decrement sites act on it): after a regular step, Unchanged exactly when the state
+    # is the one from before the step and the chained CounterZero transition changed nothing
+    uc = [b for (b, f, a, t) in calls(fa) if callee_str(f).endswith('::update_counter')]
+    is_cs = lambda e: is_field(e, 'current_state', 'MachineRuntime')
+    is_chg = lambda e: contains(e, lambda y: is_call(y, '::update_counter')) and not is_cs(e)
+    n_res = 0
+    for (b, k, v) in ret_defs(fa):
+        if not (isinstance(v, tuple) and v and v[0] == 'agg' and v[1].endswith('StateChange')) or not uc or not any(fa.cfg.dominates(u, b) for u in uc):
+            continue
+        n_res += 1
+        sts = pfh.at(b, k) if k is not None else pfh.at_entry(b)
+        same = lambda S, pol: any(f[0] == 'cmp' and f[1] == 'eq' and f[5] is pol and is_cs(f[2]) and is_cs(f[3]) for f in S) or \
+            any(f[0] == 'cmp' and f[1] == 'ne' and f[5] is (not pol) and is_cs(f[2]) and is_cs(f[3]) for f in S)
+        chained = lambda S, pol: any(f[0] == 'btrue' and f[2] is pol and is_chg(f[1]) for f in S)
+        if v[2] == 'Unchanged':
+            ok, w = all_paths(sts, lambda S: same(S, True) and chained(S, False))
+        else:
+            ok, w = all_paths(sts, lambda S: same(S, False) or chained(S, True))
+        rep.ob(pid + '.R2', fn, 'transition-reports-%s-truthfully' % v[2], ok and bool(sts), '' if ok else 'witness: ' + show_facts(w))
+    rep.count_floor(pid + '.R2', 'results of transition after a regular step', n_res, 2)
     # decrement_limit
     fn = F['decrement_limit']
     fa = an.get(fn)
